@@ -1188,4 +1188,110 @@ theorem convAttr_keep (ids ids' : List Off) (u : UnitHdr) (a : AttrRef)
     exact List.mem_flatMap.2 ⟨l, hl, List.mem_flatMap.2 ⟨o, ho, ht⟩⟩
 
 
+/-! ## `write` resolves every reference of a converted split unit -/
+
+/-- an attribute that converts has all its recorded targets in the id table -/
+theorem convAttr_targets (ids : List Off) (u : UnitHdr) (a : AttrRef) (h : convAttr ids u a = none) :
+    ∀ t, t ∈ attrDeps u a → t ∈ ids := by
+  have hu : ∀ val, convUnitRef ids u val = none → ∀ t, t ∈ (if u.inBounds val then [u.base + val] else []) → t ∈ ids := by
+    intro val h t ht
+    rw [convUnitRef_none] at h
+    simp only [h.1, if_true, List.mem_singleton] at ht
+    subst ht; exact h.2
+  have hi : ∀ val, convInfoRef ids val = none → val ∈ ids := fun val h => convInfoRef_none.1 h
+  have hop : ∀ o, convOp ids u o = none → ∀ t, t ∈ opDeps u o → t ∈ ids := by
+    intro o h t ht
+    cases o with
+    | unitRef v => exact hu v h t (by simpa [opDeps] using ht)
+    | infoRef v => simp only [opDeps, List.mem_singleton] at ht; subst ht; exact hi _ h
+    | implicitRef v => simp only [opDeps, List.mem_singleton] at ht; subst ht; exact hi _ h
+    | nestedUnitRef k v =>
+      simp only [convOp] at h
+      by_cases hk : scansDepth k = true
+      · simp only [hk, if_true] at h
+        simp only [opDeps, hk, Bool.true_and] at ht
+        exact hu v h t ht
+      · simp [hk] at h
+    | nestedInfoRef k v =>
+      simp only [convOp] at h
+      by_cases hk : scansDepth k = true
+      · simp only [hk, if_true] at h
+        simp only [opDeps, hk, if_true, List.mem_singleton] at ht
+        subst ht; exact hi _ h
+      · simp [hk] at h
+    | nestedPlain k => simp [opDeps] at ht
+  have hops : ∀ ops : List OpRef, firstErr (ops.map (convOp ids u)) = none →
+      ∀ t, t ∈ ops.flatMap (opDeps u) → t ∈ ids := by
+    intro ops h t ht
+    rw [firstErr_none] at h
+    obtain ⟨o, ho, hto⟩ := List.mem_flatMap.1 ht
+    exact hop o (h _ (List.mem_map.2 ⟨o, ho, rfl⟩)) t hto
+  intro t ht
+  cases a with
+  | unitRef v => exact hu v h t (by simpa [attrDeps] using ht)
+  | infoRef v => simp only [attrDeps, List.mem_singleton] at ht; subst ht; exact hi _ h
+  | expr ops => exact hops ops h t ht
+  | loclist locs =>
+    simp only [convAttr] at h
+    rw [firstErr_none] at h
+    simp only [attrDeps] at ht
+    obtain ⟨l, hl, htl⟩ := List.mem_flatMap.1 ht
+    exact hops l.2 (h _ (List.mem_map.2 ⟨l, hl, rfl⟩)) t htl
+
+theorem attrTargets_subset (u : UnitHdr) (a : AttrRef) : ∀ t, t ∈ attrTargets u a → t ∈ attrDeps u a := by
+  intro t ht
+  cases a with
+  | loclist locs =>
+    simp only [attrTargets] at ht
+    simp only [attrDeps]
+    obtain ⟨l, hl, htl⟩ := List.mem_flatMap.1 ht
+    refine List.mem_flatMap.2 ⟨l, hl, ?_⟩
+    by_cases h1 : l.1 = true
+    · simpa [h1] using htl
+    · simp [h1] at htl
+  | unitRef v => exact ht
+  | infoRef v => exact ht
+  | expr ops => exact ht
+
+/-- a successful `convertEntries`: every reserved entry is in the output and all its attributes converted -/
+theorem convertEntries_ok (ids : List Off) (u : UnitHdr) : ∀ (es : List Entry) (st : List (Int × Off))
+    (acc res : List (Off × Option Off)),
+    convertEntries ids u st es acc = .ok res →
+    (∀ p, p ∈ acc → p ∈ res) ∧
+    ∀ e, e ∈ es → ids.contains (u.base + e.off) = true →
+      (u.base + e.off) ∈ res.map (·.1) ∧ firstErr (e.attrs.map (convAttr ids u)) = none := by
+  intro es
+  induction es with
+  | nil =>
+    intro st acc res h
+    simp only [convertEntries, Except.ok.injEq] at h
+    subst h
+    exact ⟨fun p hp => List.mem_reverse.2 hp, fun e he => by cases he⟩
+  | cons e es ih =>
+    intro st acc res h
+    rw [convertEntries] at h
+    by_cases hr : ids.contains (u.base + e.off) = true
+    · simp only [hr, if_true, Bool.true_and] at h
+      cases hf : firstErr (e.attrs.map (convAttr ids u)) with
+      | some err => rw [hf] at h; cases h
+      | none =>
+        rw [hf] at h
+        simp only at h
+        obtain ⟨h1, h2⟩ := ih _ _ _ h
+        refine ⟨fun p hp => h1 p (List.mem_cons_of_mem _ hp), ?_⟩
+        intro e' he' hres
+        rcases List.mem_cons.1 he' with h3 | h3
+        · subst h3
+          exact ⟨List.mem_map.2 ⟨_, h1 _ List.mem_cons_self, rfl⟩, hf⟩
+        · exact h2 e' h3 hres
+    · have hr' : ids.contains (u.base + e.off) = false := by simpa using hr
+      simp only [hr', Bool.false_and, Bool.false_eq_true, if_false] at h
+      obtain ⟨h1, h2⟩ := ih _ _ _ h
+      refine ⟨h1, ?_⟩
+      intro e' he' hres
+      rcases List.mem_cons.1 he' with h3 | h3
+      · subst h3; rw [hr'] at hres; cases hres
+      · exact h2 e' h3 hres
+
+
 end Gimli.Filter
